@@ -11,6 +11,7 @@ c (added)  _substitute_real/_complex return the substituted polynomial unchanged
 
 c (round 3)  the triangular (C, C_inv) pair: C_inv C = I on an exact rational symplectic instance
 b-source (round 3)  C09.d's 'input untouched' obligation re-filed: a conversion never writes into its source polynomial
+a (round 4)  registry defaults are unchanged by a call; the class-based from_state builds its result from the conversion's result
 """
 from __future__ import annotations
 
@@ -432,7 +433,52 @@ HS = "hiten.algorithms.types.services.hamiltonian"
 PL = "hiten.algorithms.hamiltonian.pipeline"
 
 
+def _a_class_facade(chk):
+    """The class-based entry point returns the CONVERTED polynomial: TargetClass.from_state(ham, **ctx) and the service's from_state
+    are interpreted with a model conversion service whose result carries tagged poly / degree / ndof / name; the object that is
+    built must be made of the result's four fields (not the source's), and to_state returns the conversion's result itself."""
+    SYS = "hiten.system.hamiltonian"
+    hmod, hcls = ri.find_def(SYS, "Hamiltonian")
+    smod, scls = ri.find_def(HS, "_HamiltonianDynamicsService")
+    P = sp.Symbol("POINT")
+    src = SymObj(None, {"poly_H": sp.Symbol("POLY_SRC"), "degree": 6, "ndof": 3, "name": "srcform"}, "source ham")
+    result = SymObj(None, {"poly_H": sp.Symbol("POLY_NEW"), "degree": 5, "ndof": 3, "name": "dstform"}, "converted ham")
+    asked = []
+    conv = SymObj(None, {"convert": lambda ham, target, **kw: (asked.append((ham, target, kw)), result)[1]}, "conversion")
+    registry = SymObj(None, {"conversion": conv}, "registry")
+    built = []
+
+    def target_ctor(*a, **k):
+        built.append((a, k))
+        return SymObj(None, {"built_from": a}, "target instance")
+
+    def new_service(ip_, a, k):
+        return SymObj(ClassRef(smod, scls), {"registry": registry, "_registry": registry, "domain_obj": a[0] if a else None, "_domain_obj": a[0] if a else None}, "temp service")
+
+    src.attrs["dynamics"] = SymObj(ClassRef(smod, scls), {"registry": registry, "_registry": registry, "domain_obj": src, "_domain_obj": src}, "own service")
+    ip = Interp(overrides={"_HamiltonianDynamicsService": new_service})
+    fs = ri.class_member(hmod, hcls, "from_state")
+    try:
+        ip.apply(FuncRef(fs[0], fs[2], bound_self=target_ctor, qual="Hamiltonian.from_state", owner=(fs[0], fs[1])), [src], {"point": P})
+    except OutsideFragment as exc:
+        raise AnalysisError(f"Hamiltonian.from_state outside fragment: {exc}")
+    chk.count("functions partially evaluated", 2)
+    a = built[0][0] if built else ()
+    kw = built[0][1] if built else {}
+    vals = list(a) + list(kw.values())
+    ok = len(built) == 1 and sp.Symbol("POLY_NEW") in vals and sp.Symbol("POLY_SRC") not in vals and 5 in vals and "dstform" in vals \
+        and asked and asked[0][0] is src and asked[0][2].get("point") == P
+    chk.check(ok, "C18.a", f"{SYS}::Hamiltonian.from_state",
+              f"TargetClass.from_state(source, point=P) builds its result from {vals} (conversion asked: {[(t, k) for _, t, k in asked]}); expected the converted polynomial, "
+              f"degree, ndof and name of the conversion's result", sample="from_state -> target_cls(result.poly_H, result.degree, result.ndof, result.name)")
+    asked.clear()
+    out = ip.apply(ip.getattr(src.attrs["dynamics"], "to_state"), ["dstform"], {"point": P})
+    chk.check(out is result and asked and asked[0][0] is src and asked[0][1] == "dstform", "C18.a", f"{HS}::_HamiltonianDynamicsService.to_state",
+              f"to_state returns {out!r} after asking {[(t, k) for _, t, k in asked]}", sample="to_state -> conversion.convert(self.domain_obj, target, **ctx)")
+
+
 def _service_level(chk):
+    _a_class_facade(chk)
     """_HamiltonianConversionService.convert: context check, defaults merged under explicit kwargs, converter result
     returned; registry graph: every registered form is reachable from 'physical'; generating-function cache keys."""
     mod, cls = ri.find_def(HS, "_HamiltonianConversionService")
@@ -451,6 +497,13 @@ def _service_level(chk):
     chk.check(ok, "C18.a", f"{HS}::_HamiltonianConversionService.convert[merge]",
               f"convert does not call the registered converter with defaults overridden by explicit kwargs: {calls}",
               sample="converter(ham, **{**default_params, **kwargs})")
+    # ... and the registered defaults are still the registered defaults afterwards: a second call without options runs with them
+    reg_defaults = svc.attrs["_registry"][("srcform", "dstform")][2]
+    ip.apply(ip.getattr(svc, "convert"), [ham, "dstform"], {"point": P})
+    ok = reg_defaults == {"tol": 7, "other": 1} and len(calls) == 2 and calls[1][1] == {"tol": 7, "other": 1, "point": P}
+    chk.check(ok, "C18.a", f"{HS}::_HamiltonianConversionService.convert[defaults kept]",
+              f"after one call with tol=9 the registry entry's defaults are {reg_defaults} and a call without options runs with {calls[1][1] if len(calls) > 1 else None}: "
+              f"options of one call have become the defaults of every later call of that edge", sample="registered defaults unchanged by a call; next call uses them")
     try:
         Interp().apply(Interp().getattr(svc, "convert"), [ham, "dstform"], {})
         raised = False
